@@ -24,8 +24,8 @@ ASSUMPTIONS = [
     "histories compared at rtol 1e-6 (see C07), NaN patterns exactly",
 ]
 TIMEOUT = {"quick": 1800, "thorough": 5400}
-MIN_COUNTERS = {"quick": {"fault_runs": 40, "faults_with_k_ge_1": 30, "control_runs": 1, "inf_then_nan_runs": 4},
-                "thorough": {"fault_runs": 160, "faults_with_k_ge_1": 120, "control_runs": 4, "inf_then_nan_runs": 16}}
+MIN_COUNTERS = {"quick": {"fault_runs": 40, "faults_with_k_ge_1": 30, "control_runs": 1, "inf_then_nan_runs": 4, "fault_runs_with_refinement_enabled": 8},
+                "thorough": {"fault_runs": 160, "faults_with_k_ge_1": 120, "control_runs": 4, "inf_then_nan_runs": 16, "fault_runs_with_refinement_enabled": 32}}
 N_ITER = 6
 ORIGINS = ["loss", "grad_nn", "grad_eq", "update", "grad_nn_entry", "update_entry"]
 
@@ -123,13 +123,22 @@ def run_case(case, rec):
     if kind == "ode":
         dk = jinns.parameters.DerivativeKeysODE.from_str(params, dyn_loss="both", initial_condition="both", observations="both")
         loss = jinns.loss.LossODE(u=u, dynamic_loss=dyn, initial_condition=(0.0, jnp.asarray([0.4])), derivative_keys=dk, params=params)
-        data = gens.make_generator(dict(kind="ode", key=case["seed"] % 997, nt=7, bt=3, tmin=0.0, tmax=1.0))
+        gd = dict(kind="ode", key=case["seed"] % 997, nt=7, bt=3, tmin=0.0, tmax=1.0)
+        if case["k"] % 3 == 2:
+            # the same fault while another option of solve() is in use: a generator with residual-adaptive refinement
+            # switched on (burn-in longer than the run: no refinement step, but the refinement code path is taken)
+            gd.update(nt=9, nt_start=7, rar=dict(start_iter=50, update_every=2, sample_size_times=4, selected_sample_size_times=1))
+            rec.count("fault_runs_with_refinement_enabled")
+        data = gens.make_generator(gd)
     else:
         dk = jinns.parameters.DerivativeKeysPDEStatio.from_str(params, dyn_loss="both", boundary_loss="both", norm_loss="both", observations="both")
         loss = jinns.loss.LossPDEStatio(u=u, dynamic_loss=dyn, omega_boundary_fun=lambda dx: 0.2, omega_boundary_condition="dirichlet",
                                         derivative_keys=dk, params=params)
-        data = gens.make_generator(dict(kind="statio", key=case["seed"] % 997, n=7, b=3, dim=2, min_pts=[-1.0, 0.0],
-                                        max_pts=[1.0, 2.0], nb=16, bb=3))
+        gd = dict(kind="statio", key=case["seed"] % 997, n=7, b=3, dim=2, min_pts=[-1.0, 0.0], max_pts=[1.0, 2.0], nb=16, bb=3)
+        if case["k"] % 3 == 2:
+            gd.update(n=9, n_start=7, rar=dict(start_iter=50, update_every=2, sample_size_omega=4, selected_sample_size_omega=1))
+            rec.count("fault_runs_with_refinement_enabled")
+        data = gens.make_generator(gd)
     base = optax.sgd(1e-3) if case["opt"] == "sgd" else optax.adam(1e-3)
     opt = make_chain(base, faults)
     tracked = Params(nn_params=None, eq_params={"theta": True, "phi": None, "kappa": None, "tick": True})
